@@ -1,13 +1,63 @@
 (* C08 - a crash between any two writes leaves a resumable, consistent project. Statements only.
-   Proved: what the restart rebuilds from ANY directory content (C08_restart_spec), that at every operation boundary the
-   restart equals save+reload (C08_boundary, which brings in all of C07/C01), which directory images a crash inside
-   end_trial can leave (C08_end_images) and what is rebuilt in the one window where the two files disagree
-   (C08_end_window). Not a theorem (explored by the harness at every crash point of generated searches, incl. the model
-   correspondence of every write and every rebuilt state): termination and budget of the resumed search from the rebuilt
-   states that are not reachable without a crash, and repeated crashes. *)
+   Proved for EVERY crash point of EVERY search and any number of crashes (reachable_dir: search, crash after any number
+   of writes, restart, search, crash, ...): the restart either finds no tuner file and begins a new search, or rebuilds a
+   state that satisfies the lifecycle invariant Inv with nothing handed out (C08_any_crash_point) - so every trial has
+   ended or is queued to be run again, ids are 0..n-1, and every theorem of C01/C02/C03/C07 that starts from an Inv state
+   applies to the resumed search - and holds at most max_trials trials (C08_budget). What the restart rebuilds from ANY
+   directory content is C08_restart_spec (status, score and payload of every kept trial are those of its file: a durably
+   recorded end never changes); at every operation boundary the restart equals save+reload (C08_boundary); the images a
+   crash inside end_trial can leave and the one window in which the two files disagree are C08_end_images/C08_end_window.
+   Not a theorem (explored by the harness): termination of the resumed tuner loop, which is C19's search_terminates
+   started from the rebuilt state. *)
 From Coq Require Import List ZArith Bool.
 Import ListNotations.
-From KT Require Import Lifecycle LInv Crash CrashProofs.
+From KT Require Import Lifecycle LInv Crash CrashProofs CrashAll.
+
+Theorem C08_any_crash_point : forall (A V Sc : Type) (vdef : V) (score_fn : V -> scored Sc)
+    (populate : A -> list (trial V Sc) -> bool -> tid -> A * status * V) (hook_end hook_end_abort : A -> tid -> V -> A)
+    (hook_reload : A -> A) (reissue : V -> V) (c : cfg) (a0 : A) (d : @dstate A V Sc),
+  abort_early c = false ->
+  reachable_dir vdef score_fn populate hook_end hook_end_abort hook_reload reissue c a0 d ->
+  match recover hook_reload d with
+  | None => fresh_dir d
+  | Some t => Inv t /\ ongoing t = []
+  end.
+Proof. exact @crash_any_point. Qed.
+
+Theorem C08_budget : forall (A V Sc : Type) (vdef : V) (score_fn : V -> scored Sc)
+    (populate : A -> list (trial V Sc) -> bool -> tid -> A * status * V) (hook_end hook_end_abort : A -> tid -> V -> A)
+    (hook_reload : A -> A) (reissue : V -> V) (c : cfg) (a0 : A) (n : nat) (d : @dstate A V Sc) (t : @ostate A V Sc),
+  abort_early c = false -> max_trials c = Some n ->
+  reachable_dir vdef score_fn populate hook_end hook_end_abort hook_reload reissue c a0 d ->
+  recover hook_reload d = Some t -> length (trials t) <= n.
+Proof. exact @crash_budget. Qed.
+
+(* the first search crashed after k writes, as run by the correspondence check (Crash.crash_at) *)
+Theorem C08_first_crash : forall (A V Sc : Type) (vdef : V) (score_fn : V -> scored Sc)
+    (populate : A -> list (trial V Sc) -> bool -> tid -> A * status * V) (hook_end hook_end_abort : A -> tid -> V -> A)
+    (hook_reload : A -> A) (reissue : V -> V) (c : cfg) (a0 : A) (ops : list (@op V)) (k : nat),
+  abort_early c = false -> no_reload ops = true ->
+  match crash_at vdef score_fn populate hook_end hook_end_abort hook_reload reissue c a0 ops k with
+  | None => k < 2
+  | Some t => 2 <= k /\ Inv t /\ ongoing t = []
+  end.
+Proof. exact @crash_at_ok. Qed.
+
+(* the invariant is about the directory: the restart from ANY directory satisfying it yields an Inv state *)
+Theorem C08_dirok_recovers : forall (A V Sc : Type) (vdef : V) (score_fn : V -> scored Sc) (hook_reload : A -> A) (reissue : V -> V) (d : @dstate A V Sc),
+  DirOK d -> exists t : @ostate A V Sc, recover hook_reload d = Some t /\ Inv t /\ ongoing t = [].
+Proof. exact @recover_inv. Qed.
+
+(* non-vacuity: two trials started, the first ended COMPLETED, crash right after its trial file was written (write 7):
+   the restart keeps the COMPLETED trial and queues the other one *)
+Example C08_crash_example :
+  let c := {| max_trials := Some 5; max_retries := 0; max_consec := 3; abort_early := false |} in
+  let pop := fun (a : unit) (_ : list (trial nat nat)) (_ : bool) (id : tid) => (a, RUNNING, id) in
+  let ops := [Create 0; Create 1; End 0 ECompleted (fun v => v)] in
+  option_map (fun t => (map (@t_status nat nat) (trials t), retryq t, end_order t))
+    (crash_at 0 (fun v => SVal v) pop (fun a _ _ => a) (fun a _ _ => a) (fun a => a) (fun v => v) c tt ops 7)
+  = Some ([COMPLETED; RUNNING], [1], []).
+Proof. vm_compute. reflexivity. Qed.
 
 Theorem C08_restart_spec : forall (A V Sc : Type) (hook_reload : A -> A) (d : @dstate A V Sc) (j : @ojson A),
   ds_tuner d = true -> ds_oracle d = Some j ->
@@ -47,6 +97,10 @@ Theorem C08_end_window : forall (A V Sc : Type) (hook_reload : A -> A) (s : @ost
     length (trials t) = length (trials s).
 Proof. exact @end_crash_after_trial_file. Qed.
 
+Print Assumptions C08_any_crash_point.
+Print Assumptions C08_budget.
+Print Assumptions C08_first_crash.
+Print Assumptions C08_dirok_recovers.
 Print Assumptions C08_restart_spec.
 Print Assumptions C08_boundary.
 Print Assumptions C08_end_images.
